@@ -8,6 +8,7 @@ from .terms import *
 from .loader import AnalysisError, src
 
 MAX_INLINE = 8
+MUTATING_METHODS = {'append', 'extend', 'insert', 'pop', 'remove', 'clear', 'sort', 'reverse', 'update', 'add', 'discard', 'setdefault', 'popitem'}
 
 
 class Eff:
@@ -850,6 +851,20 @@ class Interp:
                 return
             n0 = len(self.sink)
             if (isinstance(v, ast.Call) and isinstance(v.func, ast.Attribute) and v.func.attr in ('append', 'extend') and len(v.args) == 1
+                    and isinstance(v.func.value, ast.Call) and isinstance(v.func.value.func, ast.Attribute) and v.func.value.func.attr == 'setdefault'
+                    and isinstance(v.func.value.func.value, ast.Name) and v.func.value.func.value.id in fr.env and len(v.func.value.args) == 2
+                    and isinstance(v.func.value.args[1], ast.List) and not v.func.value.args[1].elts
+                    and fr.env[v.func.value.func.value.id][0] not in ('sym', 'attr', 'bvar', 'idx')):
+                # d.setdefault(k, []).append(x): group-by into a local dict of lists
+                self.accumulate(v.func.value.func.value.id, v.func.attr + 'idx', self.ex(v.func.value.args[0], fr), self.ex(v.args[0], fr), fr, s)
+                return
+            if (isinstance(v, ast.Call) and isinstance(v.func, ast.Attribute) and v.func.attr in MUTATING_METHODS
+                    and not isinstance(v.func.value, (ast.Name, ast.Subscript, ast.Attribute))):
+                # a mutation reached through some other expression on a local container: be honest about not following it
+                for x in ast.walk(v.func.value):
+                    if isinstance(x, ast.Name) and x.id in fr.env and fr.env[x.id][0] in ('list', 'dict', 'comp', 'cat', 'accum', 'upd'):
+                        raise Unknown('in-place update of %s through %s' % (x.id, ast.unparse(v.func)[:50]))
+            if (isinstance(v, ast.Call) and isinstance(v.func, ast.Attribute) and v.func.attr in ('append', 'extend') and len(v.args) == 1
                     and isinstance(v.func.value, ast.Subscript) and isinstance(v.func.value.value, ast.Name) and v.func.value.value.id in fr.env
                     and fr.env[v.func.value.value.id][0] not in ('sym', 'attr', 'bvar', 'idx') and not isinstance(v.func.value.slice, ast.Slice)):
                 # local[k].append(x): scatter into a local list of lists
@@ -1116,6 +1131,9 @@ class Interp:
                 elif isinstance(n, ast.Call) and isinstance(n.func, ast.Attribute) and isinstance(n.func.value, ast.Name) \
                         and n.func.attr in ('append', 'extend', 'add', 'update'):
                     names.add(n.func.value.id)
+                elif isinstance(n, ast.Call) and isinstance(n.func, ast.Attribute) and n.func.attr in ('append', 'extend') and isinstance(n.func.value, ast.Call) \
+                        and isinstance(n.func.value.func, ast.Attribute) and n.func.value.func.attr == 'setdefault' and isinstance(n.func.value.func.value, ast.Name):
+                    names.add(n.func.value.func.value.id)
                 elif isinstance(n, (ast.For, ast.comprehension)):
                     for x in ast.walk(n.target):
                         if isinstance(x, ast.Name):
